@@ -351,12 +351,17 @@ func (p *Pool) Put(x any) {
 	p.items = append(p.items, x)
 }
 
-// Map keeps insertion order so that Range is deterministic.
+// Map keeps insertion order so that Range is deterministic. It is a pair of slices searched linearly (never a Go
+// map: the runtime's map helpers report their accesses to the race detector, which would show up as races inside
+// the shim). Race builds: a write releases into hb after storing, a read acquires it before looking - the edge the
+// real sync.Map guarantees between a write and the read that observes it (per map instead of per entry: coarser, it can
+// only hide a race, never invent one).
 type Map struct {
 	real rsync.Map
 	es   epochState
 	keys []any
-	vals map[any]any
+	vals []any
+	hb   int64
 }
 
 //go:norace
@@ -364,10 +369,20 @@ func (m *Map) in(w *mcrt.World) bool {
 	if w == nil {
 		return false
 	}
-	if m.es.stale(w) || m.vals == nil {
-		m.keys, m.vals = nil, map[any]any{}
+	if m.es.stale(w) {
+		m.keys, m.vals = nil, nil
 	}
 	return true
+}
+
+//go:norace
+func (m *Map) find(k any) int {
+	for i := range m.keys {
+		if m.keys[i] == k {
+			return i
+		}
+	}
+	return -1
 }
 
 //go:norace
@@ -379,8 +394,11 @@ func (m *Map) Load(k any) (any, bool) {
 	if !w.Aborting() {
 		w.Point("map.load", nil)
 	}
-	v, ok := m.vals[k]
-	return v, ok
+	mcrt.RaceAcquire(unsafe.Pointer(&m.hb))
+	if i := m.find(k); i >= 0 {
+		return m.vals[i], true
+	}
+	return nil, false
 }
 
 //go:norace
@@ -393,10 +411,13 @@ func (m *Map) Store(k, v any) {
 	if !w.Aborting() {
 		w.Point("map.store", nil)
 	}
-	if _, ok := m.vals[k]; !ok {
+	if i := m.find(k); i >= 0 {
+		m.vals[i] = v
+	} else {
 		m.keys = append(m.keys, k)
+		m.vals = append(m.vals, v)
 	}
-	m.vals[k] = v
+	mcrt.RaceReleaseMerge(unsafe.Pointer(&m.hb))
 }
 
 //go:norace
@@ -408,11 +429,13 @@ func (m *Map) LoadOrStore(k, v any) (any, bool) {
 	if !w.Aborting() {
 		w.Point("map.loadorstore", nil)
 	}
-	if old, ok := m.vals[k]; ok {
-		return old, true
+	mcrt.RaceAcquire(unsafe.Pointer(&m.hb))
+	if i := m.find(k); i >= 0 {
+		return m.vals[i], true
 	}
 	m.keys = append(m.keys, k)
-	m.vals[k] = v
+	m.vals = append(m.vals, v)
+	mcrt.RaceReleaseMerge(unsafe.Pointer(&m.hb))
 	return v, false
 }
 
@@ -426,14 +449,13 @@ func (m *Map) Delete(k any) {
 	if !w.Aborting() {
 		w.Point("map.delete", nil)
 	}
-	if _, ok := m.vals[k]; ok {
-		delete(m.vals, k)
-		for i, x := range m.keys {
-			if x == k {
-				m.keys = append(m.keys[:i:i], m.keys[i+1:]...)
-				break
-			}
+	if i := m.find(k); i >= 0 {
+		for j := i; j+1 < len(m.keys); j++ {
+			m.keys[j], m.vals[j] = m.keys[j+1], m.vals[j+1]
 		}
+		n := len(m.keys) - 1
+		m.keys[n], m.vals[n] = nil, nil
+		m.keys, m.vals = m.keys[:n], m.vals[:n]
 	}
 }
 
@@ -447,13 +469,19 @@ func (m *Map) Range(f func(k, v any) bool) {
 	if !w.Aborting() {
 		w.Point("map.range", nil)
 	}
-	keys := append([]any(nil), m.keys...)
-	for _, k := range keys {
-		v, ok := m.vals[k]
-		if !ok {
-			continue
+	mcrt.RaceAcquire(unsafe.Pointer(&m.hb))
+	n := len(m.keys)
+	ks := make([]any, 0, n)
+	vs := make([]any, 0, n)
+	for i := 0; i < n; i++ {
+		ks = append(ks, m.keys[i])
+		vs = append(vs, m.vals[i])
+	}
+	for i := range ks {
+		if m.find(ks[i]) < 0 {
+			continue // deleted meanwhile
 		}
-		if !f(k, v) {
+		if !f(ks[i], vs[i]) {
 			return
 		}
 	}
